@@ -2,7 +2,7 @@
 At run time: tools/matchcompiler.py is run on /repo/lib (exactly what the build does), every distinct pattern WORD is collected, the match compiler is run
 again on a synthetic file with one single-word Token::Match per word, and for each word the generated matcher is compared with the interpreter
 Token::Match on one fabricated token (text, token type, varId symbolic)."""
-import glob, hashlib, os, re, subprocess, sys
+import glob, hashlib, json, os, re, subprocess, sys
 import vlib
 from vlib import Unit, Obl
 
@@ -36,19 +36,32 @@ def gen():
         raise vlib.BuildError('matchcompiler.py failed on /repo/lib: ' + r.stderr[-1000:])
     pats = set()
     for f in glob.glob(os.path.join(work, 'lib', '*.cpp')):
-        for m in re.finditer(r'^// pattern: (.*)\n(?:MAYBE_UNUSED )?static inline bool match\d+\(', open(f, encoding='utf-8', errors='replace').read(), re.M):
+        for m in re.finditer(r'^// pattern: ([^\n]*)\n(?:MAYBE_UNUSED )?static inline bool match\d+\(', open(f, encoding='utf-8', errors='replace').read(), re.M):
             pats.add(m.group(1))
-    words = sorted(set(w for p in pats for w in p.split(' ') if w))
+    # which interpreter does a pattern belong to?  Token::Match / findmatch read the pattern language, Token::simpleMatch / findsimplematch compare words literally
+    kind = {}
+    for f in glob.glob(os.path.join(vlib.REPO, 'lib', '*.cpp')):
+        src = open(f, encoding='utf-8', errors='replace').read()
+        for m in re.finditer(r'Token::(Match|simpleMatch|findmatch|findsimplematch)\s*\((?:[^;"]|\n)*?"((?:[^"\\\\]|\\\\.)*)"', src):
+            kind.setdefault(m.group(2), set()).add('simple' if 'imple' in m.group(1) else 'match')
+    wk = set()
+    for p_ in pats:
+        ks = kind.get(p_, {'match'})
+        for w in p_.split(' '):
+            if w:
+                for k_ in ks:
+                    wk.add((w, k_))
+    words = sorted(wk)
     # single-word patterns through the real match compiler
     syn = ['#include "token.h"']
     usable = []
-    for k, w in enumerate(words):
+    for k, (w, knd) in enumerate(words):
         if '"' in w or '\\' in w or max((len(x) for x in re.split(r'\|', w)), default=0) > 14:
             continue
-        usable.append(w)
-    for k, w in enumerate(usable):
-        arg = ', varid' if '%varid%' in w else ''
-        syn.append('bool synw_%d(const Token* tok, int varid) { return Token::Match(tok, "%s"%s); }' % (k, w, arg))
+        usable.append((w, knd))
+    for k, (w, knd) in enumerate(usable):
+        arg = ', varid' if ('%varid%' in w and knd == 'match') else ''
+        syn.append('bool synw_%d(const Token* tok, int varid) { return Token::%s(tok, "%s"%s); }' % (k, 'Match' if knd == 'match' else 'simpleMatch', w, arg))
     with open(os.path.join(work, 'syn_in', 'syn.cpp'), 'w') as fh:
         fh.write('\n'.join(syn) + '\n')
     r = subprocess.run([sys.executable, mc, '--read-dir', os.path.join(work, 'syn_in'), '--write-dir', os.path.join(work, 'syn_out')], capture_output=True, text=True)
@@ -62,11 +75,11 @@ def gen():
     for m in re.finditer(r'bool synw_(\d+)\(const Token\* tok, int varid\) \{ return (match\d+)\(tok(, varid)?\); \}', out):
         call[int(m.group(1))] = m.group(2)
     items = []
-    for k, w in enumerate(usable):
+    for k, (w, knd) in enumerate(usable):
         if k not in call:      # the compiler left the call alone (pattern it does not handle): nothing to compare
             continue
         pat, sig, body = fn[call[k]]
-        items.append({'k': k, 'word': w, 'sig': sig, 'body': body, 'varid': 'varid' in sig})
+        items.append({'k': k, 'word': w, 'kind': knd, 'sig': sig, 'body': body, 'varid': 'varid' in sig})
     g = {'patterns': len(pats), 'words': len(words), 'items': items, 'skipped': len(words) - len(items)}
     _cache['g'] = g
     return g
@@ -108,15 +121,17 @@ def wrapper_for(b):
             parts.append('// word: %s' % it['word'])
             parts.append('static inline bool mcbody_%d(%s) {\n%s}' % (it['k'], it['sig'], it['body']))
             parts.append('KFN(bool, mc_%d, (const Token* tok, int varid), return mcbody_%d(tok%s);)' % (it['k'], it['k'], ', varid' if it['varid'] else ''))
-            parts.append('KFN(bool, in_%d, (const Token* tok, int varid), return Token::Match(tok, "%s"%s);)' % (it['k'], it['word'], ', varid' if it['varid'] else ''))
+            parts.append('KFN(bool, in_%d, (const Token* tok, int varid), return Token::%s(tok, "%s"%s);)' % (it['k'], 'Match' if it['kind'] == 'match' else 'simpleMatch', it['word'], ', varid' if it['varid'] else ''))
         # per-batch header for the harness
         hdr = ['/* generated */', '#define NTOKTYPES %d' % len(TOKTYPES)]
         hdr.append('enum { %s };' % ', '.join('TT_%s = %d' % (n, i) for i, n in enumerate(TOKTYPES)))
         for it in items:
-            cs = candidates(it['word'], tab)
+            cs = candidates(it['word'], tab) if it['kind'] == 'match' else ([it['word'], it['word'] + 'x', it['word'][:-1] or 'y'] + candidates('zzz', tab)[3:])[:24]
             hdr.append('#if WORD == %d' % it['k'])
+            w_ = it['word']
+            empty_alt = it['kind'] == 'match' and w_ not in ('|', '||') and (w_.endswith('|') or w_.startswith('|') or '||' in w_)
             hdr.append('#define MC(t, v) mc_%d(t, v)\n#define IN(t, v) in_%d(t, v)\n#define NCAND %d\n#define USES_VARID %d\n#define HAS_EMPTY_ALT %d' % (
-                it['k'], it['k'], len(cs), 1 if it['varid'] else 0, 1 if (it['word'].endswith('|') and it['word'] not in ('|', '||')) or ('||' in it['word'] and it['word'] != '||') or it['word'].startswith('|') and it['word'] not in ('|', '||') else 0))
+                it['k'], it['k'], len(cs), 1 if it['varid'] else 0, 1 if empty_alt else 0))
             hdr.append('static const char* const CAND[NCAND] = {%s};' % ', '.join('"%s"' % c.replace('\\', '\\\\').replace('"', '\\"') for c in cs))
             # representation invariant taken from the match compiler's own table: literal text => token type
             inv = []
@@ -147,7 +162,8 @@ def units():
 META = {
     'assumptions': ['ONE fabricated token per word; its text ranges over the word\'s literals, their one-character extension and truncation, and ~20 foreign texts of every token class',
                     'token type symbolic (all 23 values) subject to the representation invariant the match compiler itself relies on (tools/matchcompiler.py tokTypes: literal text => token type); varId symbolic in 0..2 with the invariant of Token::update_property_info (varId != 0 => token type eVariable)',
-                    'words containing quotes/backslashes or literals longer than 14 characters are skipped (counted in the evidence)'],
+                    'words containing quotes/backslashes or literals longer than 14 characters are skipped (counted in the evidence)',
+                    'native translation validation is run for every 8th word (the generated C of one batch is shared by its 48 words)'],
     'outside': 'the sequencing of words inside a multi-word pattern (tok = tok->next() chaining, optional and negated words across tokens) and findmatch/simpleMatch call forms are outside the per-word claim; that both sides implement the documented pattern language is not examined',
 }
 
@@ -155,22 +171,25 @@ META = {
 def obligations(tier):
     g = gen()
     o = []
+    cpath = os.path.join(os.path.dirname(os.path.dirname(os.path.abspath(__file__))), 'bounds', 'C33_common.json')
+    common = json.load(open(cpath)) if os.path.exists(cpath) else {}   # warm start shared by all words (loops of Token::Match and of the harness)
     seed = int(os.environ.get('VERIF_SEED', '1') or 1)
     for idx, it in enumerate(g['items']):
         b = idx // BATCH
         w = it['word']
         if tier == 'quick':
-            # every %cmd% word plus a seed-rotated sixth of the literal words
-            if '%' not in w and (int(hashlib.sha1(w.encode()).hexdigest(), 16) + seed) % 6 != 0:
+            # quick: a seed-rotated third of the %cmd% words and a twenty-fourth of the literal words (about 140 obligations); thorough: all words
+            hv = int(hashlib.sha1(w.encode()).hexdigest(), 16) + seed
+            if ('%' in w and hv % 3 != 0) or ('%' not in w and hv % 24 != 0):
                 continue
-        o.append(Obl('word.%d' % it['k'], 'c33_%d' % b, 'props/C33/harness_word.c', "match-compiled test of the pattern word '%s' == Token::Match(tok, word) on every fabricated token (and on a null token)" % w,
+        o.append(Obl('word.%s' % hashlib.sha1((it['kind'] + ' ' + w).encode()).hexdigest()[:8], 'c33_%d' % b, 'props/C33/harness_word.c', "match-compiled test of the pattern word '%s' == Token::%s(tok, word) on every fabricated token (and on a null token)" % (w, 'Match' if it['kind'] == 'match' else 'simpleMatch'),
                      'one token; text from the word\'s literals +/- one character and 20 foreign texts; all token types; varId 0..2', defines={'WORD': it['k']},
-                     backend='sat', timeout=900, mem_gb=3, unwind_max=48, max_rounds=24, tv_vectors=24, hints={'harness.1': 26, 'harness.0': 26, 'sstr_set.0': 17}))
+                     backend='sat', timeout=900, mem_gb=5, unwind_max=48, max_rounds=24, tv_vectors=24, tv=(int(hashlib.sha1(w.encode()).hexdigest(), 16) % 8 == 0), hints={'harness.1': 26, 'harness.0': 26, 'sstr_set.0': 17}))
     return o
 
 
 MANIFEST = {
     'text': 'Bounded model checking, for every distinct pattern word that occurs in the Token::Match patterns of lib/*.cpp (collected at run time by running tools/matchcompiler.py as the build does), of the generated single-word matcher against the interpreter Token::Match (real lib/token.cpp) on one fabricated token whose text, token type and varId are symbolic within the stated set. Per-word lemma; word sequencing is outside.',
-    'note': 'Trusted: clang-14, ll2c.py (validated natively each run), the literal=>token-type invariant table of the match compiler, CBMC 6.11 + MiniSat. Quick tier: all %cmd% words + a rotating sixth of the literal words; thorough: all words.',
+    'note': 'Trusted: clang-14, ll2c.py (validated natively each run), the literal=>token-type invariant table of the match compiler, CBMC 6.11 + MiniSat. Quick tier: a rotating third of the %cmd% words + a rotating 1/24 of the literal words; thorough: all words.',
     'engine': 'E1 ir2c + CBMC (generated wrapper)',
 }
